@@ -127,6 +127,11 @@ def pins_effector(out):
     out.append("Definition pin_eff_init_false : list text := %s." % tlist(arms_false))
     out.append("Definition pin_eff_init_true : list text := %s." % tlist(arms_true))
     out.append("Definition pin_eff_init_other : list text := %s." % tlist(other))
+    pin_bodies(out, "eff", [
+        ("new_stream", "src/effector.rs", r"fn\s+new_stream\s*\("),
+        ("next", "src/effector.rs", r"fn\s+next\s*\("),
+        ("push_effect", "src/effector.rs", r"fn\s+push_effect\s*\("),
+    ])
     pbody = fn_body(src, r"fn\s+push_effect\s*\(") or ""
     cmp_lits = [rust_unescape(x) for x in re.findall(r"self\.expr\s*==\s*" + STR, pbody)]
     out.append("Definition pin_eff_push_exprs : list text := %s." % tlist(cmp_lits))
@@ -134,13 +139,96 @@ def pins_effector(out):
     out.append("Definition pin_eff_next_assert : bool := %s." % ("true" if re.search(r"assert!\(\s*self\.done\s*\)", fn_body(src, r"fn\s+next\s*\(") or "") else "false"))
 
 
-SECTIONS = [pins_effector]
+def strip_rust_comments(src):
+    out = []
+    i = 0
+    in_str = False
+    while i < len(src):
+        c = src[i]
+        if in_str:
+            out.append(c)
+            if c == "\\" and i + 1 < len(src):
+                out.append(src[i + 1])
+                i += 1
+            elif c == '"':
+                in_str = False
+        elif c == '"':
+            in_str = True
+            out.append(c)
+        elif src.startswith("//", i):
+            j = src.find("\n", i)
+            i = len(src) if j < 0 else j
+            continue
+        elif src.startswith("/*", i):
+            j = src.find("*/", i + 2)
+            i = len(src) if j < 0 else j + 2
+            continue
+        else:
+            out.append(c)
+        i += 1
+    return "".join(out)
+
+
+def body_hash(rel, header_re, start_re=None):
+    """sha256 (16 hex digits) of the comment-free, whitespace-collapsed body of a function"""
+    import hashlib
+    src = read(rel)
+    start = 0
+    if start_re:
+        m = re.search(start_re, src)
+        if not m:
+            return "missing"
+        start = m.start()
+    b = fn_body(src, header_re, start)
+    if b is None:
+        return "missing"
+    norm = re.sub(r"\s+", " ", strip_rust_comments(b)).strip()
+    return hashlib.sha256(norm.encode("utf-8")).hexdigest()[:16]
+
+
+def pin_bodies(out, prefix, items):
+    """items: (name, file, header regex[, start regex])"""
+    for it in items:
+        name, rel, hdr = it[0], it[1], it[2]
+        st = it[3] if len(it) > 3 else None
+        out.append("Definition pin_body_%s_%s : text := %s." % (prefix, name, T(body_hash(rel, hdr, st))))
+
+
+def pins_rolegraph(out):
+    src = read("src/rbac/default_role_manager.rs")
+    m = re.search(r'const\s+DEFAULT_DOMAIN\s*:\s*&str\s*=\s*' + STR + r"\s*;", src)
+    out.append("Definition pin_default_domain : text := %s." % (T(rust_unescape(m.group(1))) if m else "pin_missing"))
+    enf = read("src/enforcer.rs")
+    body = fn_body(enf, r"async\s+fn\s+new_raw\s*<") or ""
+    m = re.search(r"DefaultRoleManager::new\(\s*(\d+)\s*\)", body)
+    out.append("Definition pin_hierarchy_limit : nat := %s." % (m.group(1) if m else "0"))
+    f = "src/rbac/default_role_manager.rs"
+    imp = r"impl\s+RoleManager\s+for\s+DefaultRoleManager"
+    pin_bodies(out, "rm", [
+        ("get_or_create_role", f, r"fn\s+get_or_create_role\s*\("),
+        ("matched_domains", f, r"fn\s+matched_domains\s*\("),
+        ("domain_has_role", f, r"fn\s+domain_has_role\s*\("),
+        ("clear", f, r"fn\s+clear\s*\(", imp),
+        ("add_link", f, r"fn\s+add_link\s*\(", imp),
+        ("delete_link", f, r"fn\s+delete_link\s*\(", imp),
+        ("has_link", f, r"fn\s+has_link\s*\(", imp),
+        ("get_roles", f, r"fn\s+get_roles\s*\(", imp),
+        ("get_users", f, r"fn\s+get_users\s*\(", imp),
+        ("bfs_new", f, r"pub\s+fn\s+new\s*\(", r"impl\s+Bfs\b"),
+        ("bfs_next", f, r"pub\s+fn\s+next\s*\(", r"impl\s+Bfs\b"),
+        ("bfs_update_depth", f, r"fn\s+update_depth\s*\(", r"impl\s+Bfs\b"),
+        ("bfs_iterator", f, r"fn\s+bfs_iterator\s*\("),
+    ])
+
+
+SECTIONS = [pins_effector, pins_rolegraph]
 
 
 def generate():
     out = [
         "(* GENERATED by tools/pins.py from %s on every check run. Do not edit. *)" % REPO,
         "From CV Require Import Model.Base.",
+        "Definition pin_missing : text := T \"<pin not found in source>\".",
         "",
     ]
     for f in SECTIONS:
@@ -154,7 +242,24 @@ def generate():
     return "\n".join(out) + "\n"
 
 
+def freeze(txt):
+    """tools/pins.py --freeze: record the current body hashes as the expected
+    ones (coq/PinChecks/Frozen.v, committed). Run deliberately after a reviewed
+    change to /repo, never by a check."""
+    out = ["(* Frozen body hashes of the modelled functions: written by `tools/pins.py --freeze`",
+           "   after the model was last aligned with /repo. Committed; checks never rewrite it. *)",
+           "From CV Require Import Model.Base.", ""]
+    for m in re.finditer(r"Definition pin_body_(\w+) : text := (\(T \"[^\"]*\"\))\.", txt):
+        out.append("Definition frozen_%s : text := %s." % (m.group(1), m.group(2)))
+    with open(os.path.join(os.path.dirname(os.path.dirname(os.path.abspath(__file__))), "coq", "PinChecks", "Frozen.v"), "w") as f:
+        f.write("\n".join(out) + "\n")
+    print("frozen", len(out) - 4, "body hashes")
+
+
 def main():
+    if len(sys.argv) > 1 and sys.argv[1] == "--freeze":
+        freeze(generate())
+        return
     dst = sys.argv[1] if len(sys.argv) > 1 else "/verif/coq/Pins.v"
     txt = generate()
     old = None
